@@ -44,10 +44,12 @@
 (***************************************************************************)
 EXTENDS Integers, Sequences, FiniteSets, TLC, Json
 
-CONSTANTS VarInputs,    \* set of [shape, k, nc, cov]
+\* The three input constants are TUPLES of sets (one set per covariance shape / array depth): TLC
+\* cannot hold values of different types in one set.
+CONSTANTS VarInputs,    \* tuple of sets of [shape, k, nc, cov]
           Ns,           \* values of n_rdm / n_pattern, 0 = None
-          MeanInputs,   \* set of [cv, d, k, ev]
-          FixedInputs,  \* set of [k, n, base]
+          MeanInputs,   \* tuple of sets of [cv, d, k, ev]
+          FixedInputs,  \* tuple of sets of [k, n, base]
           ChainLen,     \* number of shifts in a monotonicity chain
           ShiftSteps,   \* set of positive shift increments
           EmitMod       \* emit one terminal state in EmitMod (1 = all)
@@ -235,10 +237,10 @@ OutStage(rw, i) == CASE i.kind = "var" -> ExtractFrom(rw, i)
 Blank == [mv |-> <<>>, dv |-> <<>>, ncv |-> <<>>, means |-> <<>>, cov |-> <<>>]
 
 Init ==
-  /\ \/ \E c \in VarInputs : \E a \in Ns : \E b \in Ns :
+  /\ \/ \E g \in 1..Len(VarInputs) : \E c \in VarInputs[g] : \E a \in Ns : \E b \in Ns :
            inp = [kind |-> "var", shape |-> c.shape, k |-> c.k, nc |-> c.nc, cov |-> c.cov, nr |-> a, np |-> b]
-     \/ \E c \in MeanInputs : inp = [kind |-> "means", cv |-> c.cv, d |-> c.d, k |-> c.k, ev |-> c.ev]
-     \/ \E c \in FixedInputs : inp = [kind |-> "fixed", k |-> c.k, n |-> c.n, base |-> c.base, who |-> 0, hist |-> <<>>]
+     \/ \E g \in 1..Len(MeanInputs) : \E c \in MeanInputs[g] : inp = [kind |-> "means", cv |-> c.cv, d |-> c.d, k |-> c.k, ev |-> c.ev]
+     \/ \E g \in 1..Len(FixedInputs) : \E c \in FixedInputs[g] : inp = [kind |-> "fixed", k |-> c.k, n |-> c.n, base |-> c.base, who |-> 0, hist |-> <<>>]
   /\ stage = "in" /\ raw = <<>> /\ out = Blank /\ prm = <<>>
 
 Contrast == /\ stage = "in" /\ stage' = "raw" /\ raw' = RawStage(inp) /\ UNCHANGED <<inp, out, prm>>
